@@ -228,12 +228,62 @@ def oracle(c, o):
     return res
 
 
+def gen_longref(rng, kind, tier):
+    """Records spread over 520..3000 tiles of one reference, early tiles populated."""
+    c = c04gen.gen_case(rng, kind, tier, None, small=True)
+    t = 1 << 14
+    ntiles = rng.choice([513, 520, 600, 1025, 1500, 3000])
+    n = rng.randrange(4, 12)
+    starts = sorted(rng.randrange(0, ntiles) * t + rng.randrange(0, t) for _ in range(n))
+    starts[0] = rng.randrange(0, 3 * t)
+    starts[-1] = (ntiles - 1) * t + rng.randrange(0, t - 10)
+    starts.sort()
+    recs = []
+    for p in starts:
+        ln = rng.choice([1, 50, t, 5 * t]) if p < (ntiles - 1) * t else 5
+        recs.append(dict(rid=0, pos=p, end=p + ln))
+    if kind == 'bai':
+        for r in recs:
+            r['flags'] = 0
+            r['cig'] = c04gen.cigar_for(rng, r['end'] - r['pos'])
+        c['real'] = False
+    else:
+        for r in recs:
+            r['placed'], r['mapped'] = True, True
+        c['names'] = (c.get('names') or ['chrL'])[:1]
+    c['nref'] = 1
+    for r, (b, e) in zip(recs, c04gen.layout(rng, len(recs))):
+        r['cb'], r['ce'] = b, e
+    c['recs'] = recs
+    c['queries'] = [[0, max(0, r['pos'] - rng.randrange(0, 2 * t)), r['pos'] + rng.randrange(1, t)] for r in recs[:8]]
+    c['strat'] = 'adjacent'
+    c['wellformed'], c['mono'], c['flavour'] = True, True, 'longref'
+    return c
+
+
 def gen_cases(rng, tier):
     per = 20 if tier == 'quick' else 900
     cases = c04.corpus_cases() + corpus_cases()
     gen = c04gen.gen_cases(rng, tier, n=per, small=True)
     # serialisation is about structure, not coordinates: keep byte strings moderate
     cases += gen
+    # references with more than 512 linear-index tiles (the reader works in batches of 512)
+    for kind in ('bai', 'tabix'):
+        for _ in range(3 if tier == 'quick' else 40):
+            cases.append(gen_longref(rng, kind, tier))
+    # tabix name lists with an empty name, in particular as the last one
+    k = 0
+    while k < (3 if tier == 'quick' else 40):
+        c = c04gen.gen_case(rng, 'tabix', tier, None, small=True)
+        if c['nref'] >= 2 and c.get('wellformed'):
+            names = [n for n in c['names'] if n != '']
+            while len(names) < c['nref']:
+                names.append('ctg%d' % len(names))
+            names[-1 if k != 1 else rng.randrange(0, len(names))] = ''
+            c['names'] = names
+            c['flavour'] = 'emptyname'
+            cases.append(c)
+            k += 1
     nf = 9 if tier == 'quick' else 400
     for kind in ('bai', 'csi', 'tabix'):
         for _ in range(nf):
@@ -326,9 +376,9 @@ ASSUME = [
 ]
 
 CLAIM = dict(
-    text='Machine-checked proof (Coq 8.16.1) over the executable model of the index core and its byte-level writers/readers: statistics kept by Add equal the true counts and spans of the records added; '
-         'reading what was written gives the sorted index, which answers and reports statistics identically and writes to identical bytes. The byte-level model is evaluated inside Coq against the implementation '
-         'on every generated index and on independently written foreign files; an oracle checks bytes, answers and statistics of the implementation directly.',
-    note='Trusted: Coq kernel, the hand-written model (validated each run), generators/oracle. Partial theorems and known findings are listed in design/C15.md.',
+    text='Machine-checked proof (Coq 8.16.1) over the executable model of the index core and its byte-level writers/readers: statistics kept by Add equal the true counts and spans (stats_true); '
+         'BAI: reading what WriteIndex wrote gives the sorted index, writing that gives identical bytes, and every query and statistic is unchanged (index_io_roundtrip, chunks_preserved); the same for tabix (tabix_io_roundtrip, tabix_zero_refs_roundtrip). '
+         'The CSI v1/v2 round trip is validated on every run (model evaluated inside Coq against the implementation, on built indexes and on independently written foreign files), its proof stops at the shared blocks (chunks_preserved_partial, stats_preserved_partial, index_io_roundtrip_partial).',
+    note='Trusted: Coq kernel, the hand-written byte-level model (validated each run), generators/oracle/spec-level writer. No axioms.',
     technique='Coq proof over hand-written executable model + vm_compute correspondence + independent counters / spec-level writer',
     design='6/C15')
